@@ -23,6 +23,12 @@ use vcore::Report;
 const PREEMPTION_BOUND: usize = 3;
 /// preemption bound of the models run next by this process (0 = unbounded)
 static BOUND: std::sync::atomic::AtomicUsize = std::sync::atomic::AtomicUsize::new(PREEMPTION_BOUND);
+/// 0: models build the generator and spawn at once; 1 / 2: the joining thread first takes one timestamp from `new()`, then
+/// reconfigures that same value with with_warning_times(1 s, 0 s) / without_warnings() and only then shares it
+static PRELUDE: std::sync::atomic::AtomicU8 = std::sync::atomic::AtomicU8::new(0);
+fn prelude() -> u8 {
+    PRELUDE.load(std::sync::atomic::Ordering::Relaxed)
+}
 fn bound() -> usize {
     BOUND.load(std::sync::atomic::Ordering::Relaxed)
 }
@@ -118,7 +124,17 @@ fn oracle(vals: &[Vec<i64>], fin: i64) -> Option<(&'static str, String)> {
 /// One execution of the model body (runs inside loom).
 fn body(script: [u8; SCRIPT_LEN], threads: u8, calls: u8, cfg: Cfg) {
     clock::begin(&script);
-    let g = Arc::new(cfg.make());
+    let pre = prelude();
+    let (g, v0) = if pre == 0 {
+        (cfg.make(), None)
+    } else {
+        let g = MonotonicTimestampGenerator::new();
+        let v0 = g.next_timestamp();
+        clock::returned(250, v0);
+        let g = if pre == 1 { g.with_warning_times(Duration::from_secs(1), Duration::from_secs(0)) } else { g.without_warnings() };
+        (g, Some(v0))
+    };
+    let g = Arc::new(g);
     let hs: Vec<_> = (0..threads)
         .map(|tid| {
             let g = g.clone();
@@ -137,14 +153,19 @@ fn body(script: [u8; SCRIPT_LEN], threads: u8, calls: u8, cfg: Cfg) {
     let fin = g.next_timestamp();
     clock::returned(threads, fin);
     let log = clock::end();
-    let complaint = oracle(&vals, fin);
+    let mut complaint = oracle(&vals, fin);
+    if let Some(v0) = v0 {
+        if let Some(x) = vals.iter().flatten().chain(std::iter::once(&fin)).find(|x| **x <= v0) {
+            complaint = Some(("reconfigured-generator-goes-back", format!("the generator handed out {v0}, was reconfigured (same value moved through the builder method) and then handed out {x}")));
+        }
+    }
     ACC.with(|a| {
         let mut a = a.borrow_mut();
         a.executions += 1;
         a.digest = h64(&log, a.digest);
         let reads = log.iter().filter(|e| matches!(e, Ev::Read(..))).count() as u64;
         a.max_reads = a.max_reads.max(reads);
-        let retry = reads > (threads as u64) * (calls as u64) + 1;
+        let retry = reads > (threads as u64) * (calls as u64) + 1 + (pre != 0) as u64;
         // a returned value that no clock read produced came from the `last + 1` path
         let bumped = log.iter().any(|e| matches!(e, Ev::Ret(t, v) if *t < threads && !log.iter().any(|r| matches!(r, Ev::Read(_, Some(x)) if x == v))));
         if a.first_log.is_none() {
@@ -218,7 +239,7 @@ fn log_json(log: &[Ev]) -> Value {
 }
 
 fn case_json(script: &[u8], threads: u8, calls: u8, cfg: Cfg) -> Value {
-    json!({"script": script, "script_names": script_names(script), "threads": threads, "calls": calls, "cfg": cfg.name(), "preemption_bound": bound()})
+    json!({"script": script, "script_names": script_names(script), "threads": threads, "calls": calls, "cfg": cfg.name(), "preemption_bound": bound(), "prelude": prelude()})
 }
 
 #[derive(Default)]
@@ -322,6 +343,118 @@ impl Sweep {
     }
 }
 
+
+// ------------------------------------------------------------------------------------------------
+// Reconfiguration sub-leg: ONE generator value moved through the builder-style methods between calls.
+// ------------------------------------------------------------------------------------------------
+const OP_NEXT: u8 = 0;
+const OP_WITH_TIMES: u8 = 1;
+const OP_WITHOUT: u8 = 2;
+const OP_NAMES: [&str; 3] = ["next_timestamp()", "with_warning_times(1s, 0s)", "without_warnings()"];
+
+thread_local! {
+    static RECONF: RefCell<Option<(Vec<i64>, Vec<Ev>)>> = const { RefCell::new(None) };
+}
+
+/// Runs `ops` on one generator (single model thread: loom has exactly one execution) with the clock `script`
+/// (one symbol per next_timestamp call). Returns the values handed out, the log, and a panic text if any.
+fn run_reconf(ops: &[u8], script: &[u8]) -> (Vec<i64>, Vec<Ev>, Option<String>) {
+    RECONF.with(|c| *c.borrow_mut() = None);
+    let (ops_v, script_v) = (ops.to_vec(), script.to_vec());
+    let r = vcore::catch(std::panic::AssertUnwindSafe(move || {
+        loom::model(move || {
+            clock::begin(&script_v);
+            let mut g = MonotonicTimestampGenerator::new();
+            let mut vals = Vec::new();
+            for op in &ops_v {
+                match *op {
+                    OP_NEXT => {
+                        let x = g.next_timestamp();
+                        clock::returned(0, x);
+                        vals.push(x);
+                    }
+                    OP_WITH_TIMES => g = g.with_warning_times(Duration::from_secs(1), Duration::from_secs(0)),
+                    _ => g = g.without_warnings(),
+                }
+            }
+            let log = clock::end();
+            RECONF.with(|c| *c.borrow_mut() = Some((vals, log)));
+        })
+    }));
+    let (vals, log) = RECONF.with(|c| c.borrow_mut().take()).unwrap_or_default();
+    (vals, log, r.err().map(|p| format!("{p} at {}", vcore::last_panic_location())))
+}
+
+fn reconf_case(ops: &[u8], script: &[u8]) -> Value {
+    json!({"kind": "reconfigure", "ops": ops, "op_names": ops.iter().map(|o| OP_NAMES[*o as usize]).collect::<Vec<_>>(), "script": script, "script_names": script_names(script)})
+}
+
+/// Oracle: every value handed out is strictly greater than every earlier one.
+fn reconf_complaint(vals: &[i64]) -> Option<String> {
+    let mut max = i64::MIN;
+    for (i, v) in vals.iter().enumerate() {
+        if i > 0 && *v <= max {
+            return Some(format!("call #{} returned {v}, not above the {max} handed out earlier by the same generator value", i + 1));
+        }
+        max = max.max(*v);
+    }
+    None
+}
+
+impl Sweep {
+    /// All op sequences of length 1..=max_len over {next, with_warning_times, without_warnings} x all clock scripts
+    /// (one symbol per next call) over the full 5-symbol alphabet; this worker's share.
+    fn reconf(&self, max_len: usize, k: u64, n: u64) {
+        let r = &self.r;
+        let mut a = self.agg.borrow_mut();
+        let mut counter = 0u64;
+        for len in 1..=max_len {
+            for oi in 0..3u64.pow(len as u32) {
+                let mut x = oi;
+                let ops: Vec<u8> = (0..len).map(|_| { let d = (x % 3) as u8; x /= 3; d }).collect();
+                let nexts = ops.iter().filter(|o| **o == OP_NEXT).count();
+                if nexts == 0 {
+                    continue;
+                }
+                // a reconfiguration between two calls is what makes the sequence non-trivial
+                let first = ops.iter().position(|o| *o == OP_NEXT).unwrap();
+                let last = ops.iter().rposition(|o| *o == OP_NEXT).unwrap();
+                let between = ops[first..last].iter().any(|o| *o != OP_NEXT);
+                for si in 0..pow(nexts) {
+                    counter += 1;
+                    if counter % n != k {
+                        continue;
+                    }
+                    let script: Vec<u8> = { let mut y = si; (0..nexts).map(|_| { let d = (y % clock::ALPHABET as u64) as u8; y /= clock::ALPHABET as u64; d }).collect() };
+                    let (vals, log, panic) = run_reconf(&ops, &script);
+                    r.eval(1);
+                    r.transitions.fetch_add(1, std::sync::atomic::Ordering::Relaxed);
+                    r.states.fetch_add(1, std::sync::atomic::Ordering::Relaxed);
+                    r.counters.add("reconf:models", 1);
+                    a.models += 1;
+                    a.executions += 1;
+                    a.outcomes += 2; // not part of the one-outcome-per-model vacuity warning (single-threaded by construction)
+                    if between {
+                        r.nontrivial(1);
+                        r.counters.add("reconf:sequences_with_a_reconfiguration_between_two_calls", 1);
+                        if vals.windows(2).any(|w| w[1] == w[0] + 1) {
+                            r.counters.add("reconf:...and_a_last_plus_1_value", 1);
+                        }
+                    }
+                    let order = ((len as u64) << 40) | (oi << 20) | si;
+                    if let Some(p) = panic {
+                        a.viols.push((7, order, "panic".into(), format!("reconfiguration sequence {:?} clock {:?} panicked: {p}", ops.iter().map(|o| OP_NAMES[*o as usize]).collect::<Vec<_>>(), script_names(&script)), reconf_case(&ops, &script)));
+                    } else if let Some(w) = reconf_complaint(&vals) {
+                        let mut c = reconf_case(&ops, &script);
+                        c["log"] = log_json(&log);
+                        a.viols.push((7, order, "reconfigured-generator-goes-back".into(), format!("{w} [ops {:?}, clock {:?}, values {:?}]", ops.iter().map(|o| OP_NAMES[*o as usize]).collect::<Vec<_>>(), script_names(&script), vals), c));
+                    }
+                }
+            }
+        }
+    }
+}
+
 struct Plan {
     len_2x2: usize,
     len_3x1: usize,
@@ -331,6 +464,9 @@ struct Plan {
     /// thorough extras: 2 threads x 3 calls; 2x2 with NO preemption bound (0 = sweep off)
     len_2x3: usize,
     len_unbounded: usize,
+    /// reconfiguration sub-leg: max op-sequence length; script length of the 2-threads-after-reconfiguration loom models
+    reconf_len: usize,
+    len_reconf_mt: usize,
 }
 
 fn plan(r: &Report) -> Plan {
@@ -343,6 +479,8 @@ fn plan(r: &Report) -> Plan {
         audit_every: r.tier().pick(8u64, 64u64),
         len_2x3: q("--len-2x3", 0, 4),
         len_unbounded: q("--len-unbounded", 2, 4),
+        reconf_len: r.args.extra_value("--reconf-len").and_then(|s| s.parse().ok()).unwrap_or(r.tier().pick(5usize, 7usize)),
+        len_reconf_mt: q("--len-reconf-mt", 3, 4),
     }
 }
 
@@ -391,6 +529,18 @@ fn worker(r: Report, k: u64, n: u64) -> ! {
         }
         BOUND.store(PREEMPTION_BOUND, std::sync::atomic::Ordering::Relaxed);
     }
+    // (7) one generator value moved through with_warning_times / without_warnings between calls (single-threaded, exhaustive)
+    sw.reconf(p.reconf_len, k, n);
+    // (8) ... and shared by 2 threads x 1 call after one call + one reconfiguration on the joining thread
+    if p.len_reconf_mt > 0 {
+        for pre in [1u8, 2u8] {
+            PRELUDE.store(pre, std::sync::atomic::Ordering::Relaxed);
+            for i in (0..pow(p.len_reconf_mt)).filter(|i| mine(*i)) {
+                sw.one((8, i * 2 + pre as u64), script_of(i, p.len_reconf_mt), 2, 1, Cfg::Default, i % p.audit_every == 0, "reconf-then-2x1");
+            }
+        }
+        PRELUDE.store(0, std::sync::atomic::Ordering::Relaxed);
+    }
     let a = sw.agg.into_inner();
     let r = sw.r;
     use std::sync::atomic::Ordering::Relaxed;
@@ -407,6 +557,21 @@ fn worker(r: Report, k: u64, n: u64) -> ! {
 }
 
 fn replay(r: &Report, case: &Value) {
+    if case["kind"].as_str() == Some("reconfigure") {
+        let g = |k: &str| -> Vec<u8> { case[k].as_array().map(|a| a.iter().map(|x| x.as_u64().unwrap_or(0) as u8).collect()).unwrap_or_default() };
+        let (ops, script) = (g("ops"), g("script"));
+        println!("replaying {:?} with clock {:?} on one generator value", ops.iter().map(|o| OP_NAMES[(*o as usize).min(2)]).collect::<Vec<_>>(), script_names(&script));
+        let (vals, log, panic) = run_reconf(&ops, &script);
+        println!("  values handed out: {vals:?}");
+        println!("  observation log: {}", log_json(&log));
+        if let Some(p) = panic {
+            r.violation("panic", &p, case.clone());
+        } else if let Some(w) = reconf_complaint(&vals) {
+            println!("  {w}");
+            r.violation("reconfigured-generator-goes-back", &w, case.clone());
+        }
+        return;
+    }
     let script: Vec<u8> = case["script"].as_array().map(|a| a.iter().map(|x| x.as_u64().unwrap_or(0) as u8).collect()).unwrap_or_default();
     if script.len() != SCRIPT_LEN || script.iter().any(|s| *s as usize >= clock::ALPHABET) {
         vcore::machinery_error("replay case has no valid script");
@@ -416,6 +581,7 @@ fn replay(r: &Report, case: &Value) {
     let threads = case["threads"].as_u64().unwrap_or(2) as u8;
     let calls = case["calls"].as_u64().unwrap_or(2) as u8;
     let cfg = Cfg::parse(case["cfg"].as_str().unwrap_or("default"));
+    PRELUDE.store(case["prelude"].as_u64().unwrap_or(0) as u8, std::sync::atomic::Ordering::Relaxed);
     BOUND.store(case["preemption_bound"].as_u64().unwrap_or(PREEMPTION_BOUND as u64) as usize, std::sync::atomic::Ordering::Relaxed);
     println!("replaying loom model {threads}x{calls} cfg={} clock script {:?} (loom is deterministic: the recorded execution number recurs)", cfg.name(), script_names(&s));
     let out = run_model(s, threads, calls, cfg);
@@ -500,10 +666,11 @@ fn main() {
     r.note("loom_models", json!(a.models));
     r.note("loom_executions", json!(a.executions));
     r.note("executions_per_model_min_max", json!([a.min_execs, a.max_execs]));
-    r.note("clock_scripts", json!({"2x2 default cfg": pow(p.len_2x2), "3x1 warn-always": pow(p.len_3x1), "2x2 warn-always + no-warnings": 2 * pow(p.len_cfg), "2x2 sampled full-length": p.sampled, "2x3 default": if p.len_2x3 > 0 { pow(p.len_2x3) } else { 0 }, "2x2 unbounded preemptions": if p.len_unbounded > 0 { pow(p.len_unbounded) } else { 0 }}));
+    r.note("clock_scripts", json!({"2x2 default cfg": pow(p.len_2x2), "3x1 warn-always": pow(p.len_3x1), "2x2 warn-always + no-warnings": 2 * pow(p.len_cfg), "2x2 sampled full-length": p.sampled, "2x3 default": if p.len_2x3 > 0 { pow(p.len_2x3) } else { 0 }, "2x2 unbounded preemptions": if p.len_unbounded > 0 { pow(p.len_unbounded) } else { 0 }, "one call + reconfiguration, then 2x1": 2 * pow(p.len_reconf_mt)}));
     r.note("script_length", json!({"2x2": p.len_2x2, "3x1": p.len_3x1, "2x2-cfg": p.len_cfg, "2x3": p.len_2x3, "2x2-unbounded": p.len_unbounded, "max": SCRIPT_LEN}));
     r.note("preemption_bound", json!({"default": PREEMPTION_BOUND, "sweep 2x2-unbounded": "none"}));
     r.note("worker_processes", json!(n));
+    r.note("reconfiguration_subleg", json!({"max_ops": p.reconf_len, "ops": OP_NAMES, "clock": "every script over the 5 symbols, one symbol per next_timestamp call"}));
     r.note("determinism_audit", json!({"models_run_twice": a.audited_models, "executions_compared": a.audited_execs}));
     a.samples.sort_by_key(|s| (s["one_execution_with_a_failed_compare_exchange"].is_null(), s["script"].to_string()));
     for s in a.samples.iter().take(4) {
@@ -517,7 +684,10 @@ fn main() {
          states = distinct (script, shape, returned-value vector) outcomes; traces_validated_against_impl = executions of models run a \
          second time whose full observation logs (clock reads and returned values in global order) matched the first run (determinism audit). \
          distinct_nontrivial = distinct outcomes of executions in which at least one compare-exchange failed and the call retried \
-         (more clock reads than calls). Scripts: all words of the stated length over {stall,+1us,-3us,before-epoch,far-future}, later reads stall.",
+         (more clock reads than calls). Scripts: all words of the stated length over {stall,+1us,-3us,before-epoch,far-future}, later reads stall. \
+         Reconfiguration sub-leg (counters reconf:*): every sequence of <= max_ops operations over {next_timestamp, with_warning_times, without_warnings} on ONE generator \
+         value moved through the builder methods x every clock script (one symbol per call); single model thread, so one execution = one transition = one state each; \
+         non-trivial = a reconfiguration lies between two calls. Oracle there: every value is above every earlier one.",
     );
     r.set_exhaustive(true);
     r.assume("loom explores sequentially consistent and C11-weak behaviours of the atomics it sees, up to preemption bound 3; the source under loom is a textual derivation (imports and clock only) of timestamp_generator.rs");
